@@ -202,6 +202,8 @@ def gen_case(rng, malformed):
             "00:10:01", "30", 30, 0, 90, "10:00:60", "00:59:30.5", "23:59:60"])
     if adapter == "flux" and run.get("walltime") == "00:59:30.5":
         run["walltime"] = "00:59:30"      # float repr of fractional seconds is outside the model
+    if adapter == "flux" and "walltime" in run and rng.random() < 0.12:
+        run["walltime"] = "inf"           # Flux's spelling of "no limit"
     if rng.random() < 0.2:
         run["reservation"] = "stepres"
     if rng.random() < 0.25:
@@ -331,6 +333,8 @@ def admitted(case):
         if k in run and not is_count(run[k], 0 if k == "gpus" else 1):
             return False
     wt = run.get("walltime")
+    if wt == "inf" and case["adapter"] == "flux":
+        wt = 0
     if wt is not None and not (isinstance(wt, int) and wt >= 0) and not (
             isinstance(wt, str) and (WALL_OK.fullmatch(wt) or re.fullmatch(r"[0-9]+", wt))):
         return False
@@ -455,6 +459,8 @@ def lsf_walltime(wt):
 
 
 def flux_seconds(wt):
+    if wt == "inf":
+        return 0.0
     if isinstance(wt, int) or re.fullmatch(r"[0-9]+", wt):
         return float(int(wt) * 60)
     secs = 0
